@@ -230,38 +230,43 @@ structure SplitState (α : Type) where
   raised : Bool
   unbound : Bool
 
+/-- the inner loop `for j in range(splitted_sizes[i])` of `reg_split_from` on row `i`
+    (`splitted_weights[i][j] += 1.0` acts on the row view).  State = (weights row, flag, the Python
+    variable `j`, exception raised).  The `j >= max_j` test comes after the update, as in the code. -/
+def splitRowLoop [Add α] [One α] (maxJ : Nat) (pixelIndex : Int) (mrow : List Int) (size : Nat)
+    (wrow : List α) (j0 : Option Nat) : List α × Bool × Option Nat × Bool :=
+  (List.range size).foldl
+    (fun (st : List α × Bool × Option Nat × Bool) j =>
+      if st.2.2.2 then st else
+      let hit := mrow.getD j 0 == pixelIndex
+      (if hit then st.1.modify j (fun e => e + 1) else st.1, if hit then true else st.2.1,
+        some j, decide (j ≥ maxJ)))
+    (wrow, false, j0, false)
+
+/-- one iteration of the outer loop `for i in range(len(splitted_mappings))` -/
+def splitStep [Add α] [One α] (maxJ : Nat) (s : SplitState α) (i : Nat) : SplitState α :=
+  if s.raised || s.unbound then s else
+  let pixelIndex : Int := ((i / 4 : Nat) : Int)
+  let inner := splitRowLoop maxJ pixelIndex (s.t.mappings.getD i []) (s.t.sizes.getD i 0)
+    (s.t.weights.getD i []) s.j
+  if inner.2.2.2 then { s with raised := true } else
+  if inner.2.1 then { s with t := { s.t with weights := s.t.weights.set i inner.1 }, j := inner.2.2.1 } else
+  match inner.2.2.1 with
+  | none => { s with unbound := true }
+  | some j =>
+    { s with
+      t := { mappings := s.t.mappings.modify i (fun r => r.set (j + 1) pixelIndex),
+             sizes := s.t.sizes.modify i (fun n => n + 1),
+             weights := s.t.weights.set i (inner.1.set (j + 1) 1) },
+      j := some j }
+
 /-- `regularization_util.reg_split_from(splitted_mappings, splitted_sizes, splitted_weights)`:
     the in-place sign flip, then per cross-point row the `+1` on the entry of the row's own pixel, or the
     append of that pixel with weight 1 at position `j + 1`. -/
-def regSplitFrom [Neg α] [Add α] [One α] [Zero α] (t : SplitTables α) : SplitResult α :=
+def regSplitFrom [Neg α] [Add α] [One α] (t : SplitTables α) : SplitResult α :=
   let maxJ := (t.weights.headD []).length - 1
   let t0 : SplitTables α := { t with weights := t.weights.map fun r => r.map fun v => -v }
-  let final := (List.range t0.mappings.length).foldl (fun (s : SplitState α) i =>
-      if s.raised || s.unbound then s else
-      let pixelIndex : Int := ((i / 4 : Nat) : Int)
-      let size := s.t.sizes.getD i 0
-      -- inner loop: state = (weights, flag, j, raised)
-      let inner := (List.range size).foldl
-        (fun (st : List (List α) × Bool × Option Nat × Bool) j =>
-          if st.2.2.2 then st else
-          let hit := (s.t.mappings.getD i []).getD j 0 == pixelIndex
-          let w := if hit then addAt st.1 i j 1 else st.1
-          let flag := if hit then true else st.2.1
-          (w, flag, some j, decide (j ≥ maxJ)))
-        (s.t.weights, false, s.j, false)
-      let w := inner.1
-      let flag := inner.2.1
-      let jv := inner.2.2.1
-      if inner.2.2.2 then { s with raised := true } else
-      if flag then { s with t := { s.t with weights := w }, j := jv } else
-      match jv with
-      | none => { s with unbound := true }
-      | some j =>
-        { s with
-          t := { mappings := s.t.mappings.modify i (fun r => r.set (j + 1) pixelIndex),
-                 sizes := s.t.sizes.modify i (fun n => n + 1),
-                 weights := setAt w i (j + 1) 1 },
-          j := jv })
+  let final := (List.range t0.mappings.length).foldl (splitStep maxJ)
     { t := t0, j := none, raised := false, unbound := false }
   if final.raised then .meshException
   else if final.unbound then .unboundLocal
